@@ -56,7 +56,8 @@ declaration under a multi-line block comment, probe). Round-0 deviation: run-tim
 without results; function declarations are judged on the written Go source through the //line-adjusted position of
 the `func` keyword instead (what the Go toolchain records for the declaration). Statement kind `for-in-filter` was added
 after a second-wave seeded change was missed.""",
-"C10": "Q 40 programs × 6 overload sets / T 1 500. No defect found on the unchanged tree.",
+"C10": """Q 40 programs × 6 overload sets / T 1 500. No defect found on the unchanged tree. Style `mixed-literals-and-named`
+(inline literals and named functions in one declaration) was added after a third-wave seeded change was missed.""",
 "C11": """Q 40 packages (1–3 class files) / T 1 500. No defect found on the unchanged tree. Half of the packages declare
 package-level functions named like class methods that call each other bare (added after a second-wave seeded change
 was missed).""",
@@ -76,7 +77,8 @@ constraints, `$` in string literals, a blank between callee and `(`). XGo's comm
 significant by design; the re-spacing generator keeps those places untouched (blank before `(`/`[` after an operand,
 blanks around operators that can be unary), and the two variants met before that change (`ch <-v`, `m [k] = v`) are
 classified and listed as known findings of the same family.""",
-"C15": "Exhaustive short strings over a hostile alphabet plus lexeme streams; six scanner defects fixed.",
+"C15": """Exhaustive short strings over a hostile alphabet plus lexeme streams; six scanner defects fixed. Non-termination is
+decided by a bound on the number of tokens per input byte, not by a timeout.""",
 "C16": """False alarms removed during construction: go/scanner ≥ 1.20 places the automatic semicolon after a trailing
 comment (XGo follows 1.18) → comments are compared separately and the auto-semicolon offset is normalised; `0i0`
 (XGo unit suffix) → reference-side domain filter. Two known findings (`!` and `...` followed by newline insert an
@@ -103,13 +105,16 @@ reduced to the smallest sub-tree that fails in isolation (culprit-based site).""
 "C23": """The oracle was reduced to the property statement after false alarms (comment attachment and group boundaries are
 not part of it): per declaration the (name, path) set may only lose exact duplicates, and every run of specs on
 successive lines is sorted by unquoted path.""",
-"C24": "Three RearrangeFuncs defects fixed; one known finding (input without trailing newline).",
+"C24": """Three RearrangeFuncs defects fixed; one known finding (input without trailing newline). After a third-wave seeded
+change was missed, operator functions/methods and overload declarations (with and without receiver) were added to the
+generator and to the reference model's notion of a declaration.""",
 "C25": """Q 60 programs / T 2 400. Five converter defects fixed (the fifth: `func() { return }` as an argument made the printer
 panic). Four of them: (`strings.Map` → keyword, locals named like an import,
 program functions named like a builtin, lambda passed to `append`). Go programs with `$` in string literals are
 outside the subset (documented deviation, C01). Two probe kinds stand alone (user function named like a builtin,
 local variable named like an import).""",
-"C26": """Q 9 scenarios / 50 crash points, T 85 / ≈430. The supervisor follows every thread of the xgo process
+"C26": """Q 12 scenarios / ≈70 crash points, T ≈130 / ≈700; permission modes include bits the umask (set to 022 by the check)
+would clear (0664, 0666, 0775). The supervisor follows every thread of the xgo process
 (PTRACE_O_TRACECLONE) but not its child processes (`go env`), which do not touch the files and would cost 10⁵ stops
 per run. Defect fixed: remove-then-rename window, temporary file in os.TempDir() for bare names, mode always 0600.""",
 "C28": "Left-recursion re-entry and no-progress hooks decide divergence logically; three tpl defects fixed.",
